@@ -308,6 +308,23 @@ def run(ctx, R):
     R.ob("C11:bb_b_put:value-stored-is-not-an-environment-variable", len(glob) >= 1,
          "store_backtrackable_global_var stores the dereferenced argument as it is: for an unbound variable of the calling clause's environment that is a reference "
          "into the stack, dead once the clause returns (a :- bb_b_put(k, X), p(X). ?- a, bb_get(k, V). reads a stale stack slot and answers V = k)", F.where(sb))
+    # the trail entry of a replaced value holds the OLD value: it is made before the cell is overwritten
+    order_ok, n_pairs_bb = True, 0
+    for blk in walk(sbb):
+        if blk.get("k") != "Block":
+            continue
+        ss = list(blk.get("stmts", [])) + ([blk["expr"]] if "expr" in blk else [])
+        tr_i = [i for i, st in enumerate(ss) if any(x["k"] == "MethodCall" and x["name"] == "trail" and any(((y.get("ctor") or y.get("callee") or res_name(y) or "") if isinstance(y, dict) else "").endswith("TrailRef::BlackboardOffset") for y in walk(x)) for x in walk(st))]
+        as_i = [i for i, st in enumerate(ss) if st.get("k") == "Assign" and st["lhs"].get("k") == "Unary" and "Deref" in str(st["lhs"].get("op"))]
+        if tr_i and as_i:
+            n_pairs_bb += 1
+            if not (max(tr_i) < min(as_i)):
+                order_ok = False
+    if n_pairs_bb < 1:
+        raise AnchorLost("store_backtrackable_global_var: the arm that replaces a live value (trail + overwrite)")
+    R.ob("C11:bb_b_put:old-value-trailed-before-overwrite", order_ok,
+         "store_backtrackable_global_var overwrites the stored value before it builds the BlackboardOffset trail entry from it: the entry then records the NEW value and "
+         "backtracking restores the key to what it was supposed to undo (bb_b_put(k, outer), ( bb_b_put(k, inner), fail ; bb_get(k, V) ) gives V = inner)", F.where(sb))
     R.ob("C11:bb_b_put:distinguishes-states", need <= states and have_some_some and not top_wild,
          "store_backtrackable_global_var must treat 'key absent', 'key present without backtrackable value' (keeps the bb_put value) and "
          "'key present with value' separately; found states %s%s" % (sorted(states), " with a catch-all arm" if top_wild else ""), F.where(sb))
